@@ -18,15 +18,46 @@ DRIVER_ENF = os.path.join(core.VERIF, "harness", "overlay", "neutrino", "zz_veri
 PKG_STORE = os.path.join(core.REPO, "banman")
 PKG_ENF = core.REPO
 
-READY = False
+READY = True
 PROPERTIES = ["C13"]
 
 MANIFEST = {
     "C13": dict(
         engine="BanStore",
-        text="TODO",
-        note="TODO",
-        design="4 C13", technique="TLA+ spec + TLC exhaustive + spec-to-code replay of every transition + TLC-judged observed traces"),
+        text="Two TLA+ specifications checked exhaustively by TLC, every transition of both replayed on the real code, "
+             "the property operators evaluated by TLC on the observed traces. (1) specs/BanStore/BanStore.tla: the two "
+             "bbolt buckets keyed by the serialised IP network, a logical clock, actions Ban(class, spelling group, "
+             "duration, reason) / Unban / Status (with its lazy delete) / Reopen / Tick over address classes (IPv4 "
+             "address, IPv6 address, a second IPv4 address, their /N networks); the spelling is an action parameter "
+             "the property ignores. Replayed on the real banman.Store over real bbolt with concrete spellings made "
+             "per class from the seed (dotted quad, with port, eight IPv4-mapped IPv6 forms, compressed / expanded / "
+             "upper-case / dotted-tail IPv6, bracketed with port, explicit /32 and /128 masks in both mask lengths, "
+             "net.ParseCIDR forms, non-default masks /8../30 and /32../120); after EVERY step Status is queried for "
+             "every class through one spelling of every group (on a snapshot, so the lazy delete does not disturb the "
+             "store under test) and BannedUntilLapse / RecordedReason / NotBannedAfterLapse / NotBannedAfterUnban / "
+             "SameRecordEverySpelling / ReopenPreserves / EveryFormAccepted are judged. Thorough adds real-time bans "
+             "of 1-5 s on a 3 s grid (lapse observed on both sides of the expiry second), bans that lapse within a "
+             "second, and random walks. (2) specs/BanStore/BanEnforce.tla: peer life cycle Connect / Version(service "
+             "bits) / VerAck / Misbehave(kind) / Unban / Drop over connection slots and ip:port addresses; replayed, "
+             "without a network, on a ChainService with the real ban store, real addrmgr, real btcd connmgr (scripted "
+             "in-memory connections from its Dial), the real peerHandler, outboundPeerConnected, btcd peer handshake -> "
+             "ServerPeer.OnVersion / OnVerAck -> handleAddPeerMsg, BanPeer, IsBanned, Peers(); judged: "
+             "NoServicePeerBanned, MisbehavingPeerBanned, NoConnectionToBanned (over ChainService.Peers()), "
+             "BannedConnectRefused.",
+        note="Bounded: store <=5 address classes, 3 spelling groups, 2 reasons, clock 0..3; enforcement <=3 connection "
+             "slots, 2 IPs x 2 ports, 6 actions per history (the replayed graph has cycles, paths are longer). "
+             "Assumes: expiries are whole Unix seconds, queries in the wall-clock second of a nominal expiry are never "
+             "issued and never judged; the statement does not say that banning a network bans its member addresses, so "
+             "that is not judged; spellings Go's net package rejects (zone ids, leading zeros, brackets without port) "
+             "are not textual forms of an address here. Enforcement limits: the misbehaviour DETECTION sites "
+             "(GetBlock, filter-header / checkpoint validation) are not driven here - the driver calls BanPeer the way "
+             "they do, detection belongs to the C03/C05/C06 checks; NewChainService wiring, GetNewAddress skipping "
+             "banned addresses (non-dev networks), UnbanPeer and two simultaneous connections to one ip:port are not "
+             "covered; neutrino accepts no inbound connections, so there is no inbound refusal to check. A full "
+             "simulated network (Client family) is needed to observe enforcement during real sync. Known finding "
+             "KF-BS-2 (ban covers the IP, only the exact ip:port peer is dropped) is reported as KNOWN-FINDING.",
+        design="4 C13", technique="TLA+ specs + TLC exhaustive + spec-to-code replay of every transition (real bbolt, "
+                                  "real connmgr/peer handshake over in-memory connections) + TLC-judged observed traces"),
 }
 
 STORE_PROPS = ["BannedUntilLapse", "RecordedReason", "NotBannedAfterLapse", "NotBannedAfterUnban",
@@ -116,7 +147,7 @@ def _paths_from_replay(replay_file, pf):
         rec["pseed"] = tr["pseed"]
     with open(pf, "w") as f:
         f.write(json.dumps(rec) + "\n")
-    return tr.get("part", "store")
+    return tr.get("part", "store"), bool(tr.get("soon"))
 
 
 def _judge(props_mod, names, observed, probe=300, chunk=4000):
@@ -261,12 +292,11 @@ def run(prop_id, tier, seed, replay=None):
         parts = []
         if replay:
             pf = os.path.join(sc, "paths.ndjson")
-            which = _paths_from_replay(replay, pf)
+            which, soon = _paths_from_replay(replay, pf)
             part = _Part(which)
             part.tlc = family._NoTLC()
             part.paths = [0]
-            env = {"VERIF_SEED": str(seed), "VERIF_SOON": "0" if which == "store-timed" else "1",
-                   "VERIF_KEEP_SWEEPS": "1"}
+            env = {"VERIF_SEED": str(seed), "VERIF_SOON": "1" if soon else "0", "VERIF_KEEP_SWEEPS": "1"}
             if which.startswith("store"):
                 binary = family.build_overlay_test(PKG_STORE, [DRIVER_STORE], os.path.join(sc, "banman.test"))
                 test, props_mod, names = "TestVerifBanStoreReplay", "BanStoreProps", STORE_PROPS
